@@ -107,7 +107,7 @@ func PointsBijection(d Dump, m *RefShard) (map[uuid.UUID]uint64, string) {
 	pts := d["points"]
 	byUUID := map[uuid.UUID]uint64{}
 	byNode := map[uint64]uuid.UUID{}
-	for k, v := range pts {
+	for k, v := range detRange(pts) {
 		if len(k) == 18 && k[0] == 'p' && k[17] == 'i' {
 			var u uuid.UUID
 			copy(u[:], k[1:17])
@@ -133,17 +133,17 @@ func PointsBijection(d Dump, m *RefShard) (map[uuid.UUID]uint64, string) {
 		}
 		return nil, fmt.Sprintf("unexpected key %x in the points bucket", k)
 	}
-	for u, id := range byUUID {
+	for u, id := range detRange(byUUID) {
 		if back, ok := byNode[id]; !ok || back != u {
 			return nil, fmt.Sprintf("point %d maps to node %d but node %d maps back to %v", PIDIndex(u), id, id, back)
 		}
 	}
-	for id, u := range byNode {
+	for id, u := range detRange(byNode) {
 		if fwd, ok := byUUID[u]; !ok || fwd != id {
 			return nil, fmt.Sprintf("node %d maps to point %d but that point maps to node %d (present %v): two live points share or lost a node id", id, PIDIndex(u), fwd, ok)
 		}
 	}
-	for k := range pts {
+	for k := range detRange(pts) {
 		if id, suffix, ok := parseNodeKey(k); ok && suffix == 'd' {
 			if _, live := byNode[id]; !live {
 				return nil, fmt.Sprintf("node %d has stored data but no point id", id)
@@ -153,7 +153,7 @@ func PointsBijection(d Dump, m *RefShard) (map[uuid.UUID]uint64, string) {
 	if len(byUUID) != len(m.Docs) {
 		return nil, fmt.Sprintf("%d points stored, model has %d", len(byUUID), len(m.Docs))
 	}
-	for u := range m.Docs {
+	for u := range detRange(m.Docs) {
 		if _, ok := byUUID[u]; !ok {
 			return nil, fmt.Sprintf("model point %d is not in the points bucket", PIDIndex(u))
 		}
@@ -184,7 +184,7 @@ func CheckFreeList(d Dump, live map[uint64]bool) string {
 			return fmt.Sprintf("reserved node id %d is on the free list", id)
 		}
 	}
-	for id := range live {
+	for id := range detRange(live) {
 		if id >= next {
 			return fmt.Sprintf("live node id %d is not below the next fresh id %d (it would be handed out again)", id, next)
 		}
@@ -205,7 +205,7 @@ func CheckGraph(d Dump, schema models.IndexSchema, prop string, m *RefShard, nod
 	quantised := map[uint64]bool{}
 	var maxRecorded uint64
 	hasMax := false
-	for k, v := range b {
+	for k, v := range detRange(b) {
 		if id, suffix, ok := parseNodeKey(k); ok {
 			switch suffix {
 			case 'e':
@@ -230,7 +230,7 @@ func CheckGraph(d Dump, schema models.IndexSchema, prop string, m *RefShard, nod
 	}
 	expected := map[uint64]uuid.UUID{}
 	dim := int(vp.VectorSize)
-	for u, doc := range m.Docs {
+	for u, doc := range detRange(m.Docs) {
 		if _, ok := docVector(doc, prop, dim); ok {
 			expected[nodeOf[u]] = u
 		}
@@ -245,7 +245,7 @@ func CheckGraph(d Dump, schema models.IndexSchema, prop string, m *RefShard, nod
 	if !vecs[entry] {
 		return 0, "the entry node has no vector"
 	}
-	for id := range edges {
+	for id := range detRange(edges) {
 		if id == entry {
 			continue
 		}
@@ -256,18 +256,18 @@ func CheckGraph(d Dump, schema models.IndexSchema, prop string, m *RefShard, nod
 			return 0, fmt.Sprintf("graph node %d has no stored vector", id)
 		}
 	}
-	for id := range vecs {
+	for id := range detRange(vecs) {
 		if _, ok := edges[id]; !ok {
 			return 0, fmt.Sprintf("stored vector %d has no graph node", id)
 		}
 	}
-	for id, u := range expected {
+	for id, u := range detRange(expected) {
 		if _, ok := edges[id]; !ok {
 			return 0, fmt.Sprintf("live point %d (node %d) carries the vector field but has no graph node", PIDIndex(u), id)
 		}
 	}
 	var maxID uint64
-	for id, es := range edges {
+	for id, es := range detRange(edges) {
 		if id > maxID {
 			maxID = id
 		}
@@ -287,7 +287,7 @@ func CheckGraph(d Dump, schema models.IndexSchema, prop string, m *RefShard, nod
 		return 0, fmt.Sprintf("recorded maximum node id %d (present %v) is below node id %d in use", maxRecorded, hasMax, maxID)
 	}
 	// stored full vectors must be the model's
-	for id, u := range expected {
+	for id, u := range detRange(expected) {
 		raw, ok := plain[id]
 		if !ok || quantised[id] {
 			// once a quantised code exists it is the stored vector; a full vector left behind is never read
@@ -334,7 +334,7 @@ func (c10) Execute(env *Env) {
 				if lastDump != nil && len(op.IDs) > 0 {
 					if nid, ok := lastNodeOf[PID(op.IDs[0])]; ok {
 						byNode := map[uint64]uuid.UUID{}
-						for u, n := range lastNodeOf {
+						for u, n := range detRange(lastNodeOf) {
 							byNode[n] = u
 						}
 						for _, t := range u64list(lastDump[indexBucketName(p.Schema, "vv")][nodeKey(nid, 'e')]) {
@@ -369,7 +369,7 @@ func (c10) Execute(env *Env) {
 				return
 			}
 			live := map[uint64]bool{}
-			for _, n := range nodeOf {
+			for _, n := range detRange(nodeOf) {
 				live[n] = true
 			}
 			if msg := CheckFreeList(d, live); msg != "" {
